@@ -16,7 +16,7 @@ Require Import PyBase Container Alias.
 Require Import ExtrOcamlBasic ExtrOcamlString.
 Extraction Language OCaml.
 Extraction "%(out)s" np_step np_init_model init_vc values_shape size_of nbytes_own
-  alias_construct alias_step export alias_init_model alias_getitem alias_getattr_var string_of_Z.
+  alias_construct alias_step export alias_init_model alias_getitem alias_getattr_var read alias_read reg_names string_of_Z.
 '''
 
 DRIVER_ML = r'''
@@ -103,6 +103,10 @@ let op_of = function
   | L [A "setitem"; k; v] -> SetItem (key_of k, operand_of v)
   | L [A "replace"; kvs] -> ReplaceValues (List.map (function L [nm; v] -> (name_of nm, operand_of v) | _ -> failwith "kv") (list_of kvs))
   | L [A "addattr"; nm; v] -> AddAttribute (name_of nm, operand_of v)
+  | L [A "query"; A "completions"] -> Query QCompletions
+  | L [A "query"; A "dir"] -> Query QDir
+  | L [A "query"; A "nbytes"] -> Query QNbytes
+  | L [A "query"; L [A "contains"; nm]] -> Query (QContains (name_of nm))
   | _ -> failwith "op"
 
 (* ---- JSON output ---- *)
@@ -143,15 +147,23 @@ let jstate s =
   "{\"index\":" ^ jlist jname s.index ^ ",\"vars\":[" ^ String.concat "," vars ^ "],\"values\":" ^ vs
   ^ ",\"size\":" ^ jnat (size_of s) ^ ",\"nbytes\":" ^ jnat (nbytes_own s)
   ^ ",\"strict\":" ^ (if s.strict then "true" else "false")
-  ^ ",\"reg\":" ^ jlist (function RName n -> jname n | RJunk -> "null") s.registry
+  ^ ",\"reg\":" ^ jlist jname (reg_names s.registry)
   ^ ",\"adict\":" ^ jlist jstr (List.sort compare (List.map (fun (k, _) -> string_of_cl k) s.adict))
   ^ ",\"names\":" ^ jlist jname s.names ^ "}"
 let jout = function Ret _ -> "\"ok\"" | Raise e -> jstr (exn_name e)
 
-let run_ops stepf s0 ops =
+let jqval = function
+  | Ret (VNames l) -> "{\"names\":" ^ jlist jname l ^ "}"
+  | Ret (VBool b) -> "{\"bool\":" ^ (if b then "true" else "false") ^ "}"
+  | Ret (VNat n) -> "{\"nat\":" ^ jnat n ^ "}"
+  | Raise e -> jstr (exn_name e)
+let run_ops stepf readf s0 ops =
   let rec go s = function
     | [] -> []
-    | o :: r -> let (s', out) = stepf o s in ("{\"out\":" ^ jout out ^ ",\"st\":" ^ jstate s' ^ "}") :: go s' r
+    | o :: r ->
+        let (s', out) = stepf o s in
+        let ret = match o with Query q -> ",\"ret\":" ^ jqval (snd (readf q s)) | _ -> "" in
+        ("{\"out\":" ^ jout out ^ ret ^ ",\"st\":" ^ jstate s' ^ "}") :: go s' r
   in go s0 ops
 
 let aliases_of sx = List.map (function L [k; v] -> (name_of k, name_of v) | _ -> failwith "alias") (list_of sx)
@@ -163,14 +175,14 @@ let handle line =
   match parse (tokenize line) with
   | L [A "vc"; sp; st; ops] ->
       let s0 = init_vc (List.map z_of_sx (list_of sp)) (int_of_sx st <> 0) in
-      "{\"init\":\"ok\",\"st0\":" ^ jstate s0 ^ ",\"steps\":[" ^ String.concat "," (run_ops np_step s0 (List.map op_of (list_of ops))) ^ "]}"
+      "{\"init\":\"ok\",\"st0\":" ^ jstate s0 ^ ",\"steps\":[" ^ String.concat "," (run_ops np_step read s0 (List.map op_of (list_of ops))) ^ "]}"
   | L [A (("model" | "linker") as k); extra; sp; st; d; dflt; nms; ivs; ops] ->
       let dr = match dreq_of d with Some x -> x | None -> failwith "dreq" in
       let (s0, out) = np_init_model (kind_of k (int_of_sx extra)) (List.map z_of_sx (list_of sp)) (int_of_sx st <> 0) dr
           (operand_of dflt) (names_of nms) (ivs_of ivs) in
       (match out with
        | Raise _ -> "{\"init\":" ^ jout out ^ ",\"steps\":[]}"
-       | Ret _ -> "{\"init\":\"ok\",\"st0\":" ^ jstate s0 ^ ",\"steps\":[" ^ String.concat "," (run_ops np_step s0 (List.map op_of (list_of ops))) ^ "]}")
+       | Ret _ -> "{\"init\":\"ok\",\"st0\":" ^ jstate s0 ^ ",\"steps\":[" ^ String.concat "," (run_ops np_step read s0 (List.map op_of (list_of ops))) ^ "]}")
   | L [A "alias"; A k; extra; al; pref; sp; st; d; dflt; nms; ivs; ops; reads] ->
       (* AliasMixin over a model / linker: constructor, ops through aliases, renamed export *)
       let dr = match dreq_of d with Some x -> x | None -> failwith "dreq" in
@@ -184,7 +196,7 @@ let handle line =
             | Raise _ -> "{\"init\":" ^ jout out ^ "," ^ amj ^ ",\"steps\":[]}"
             | Ret _ ->
                 let opl = List.map op_of (list_of ops) in
-                let steps = run_ops (alias_step am) s0 opl in
+                let steps = run_ops (alias_step am) (alias_read am) s0 opl in
                 let sfin = List.fold_left (fun s o -> fst (alias_step am o s)) s0 opl in
                 let ren = match export am sfin with
                   | Ret l -> jlist (fun (t, src) -> "[" ^ jname t ^ "," ^ jname src ^ "]") l | Raise e -> jstr (exn_name e) in
@@ -362,6 +374,9 @@ def enc_op(op, hint=None):
         return '(replace (%s))' % ' '.join('(%s %s)' % (xname(k), enc_operand(v)) for k, v in op[1])
     if t == 'addattr':
         return '(addattr %s %s)' % (xname(op[1]), enc_operand(op[2]))
+    if t == 'query':
+        q = op[1]
+        return '(query (contains %s))' % xname(q[1]) if isinstance(q, list) else '(query %s)' % q
     raise ValueError(op)
 
 
@@ -572,6 +587,8 @@ def apply_op(obj, op):
             obj.replace_values(**{k: py_of_operand(v) for k, v in op[1]})
         elif t == 'addattr':
             obj.add_attribute(op[1], py_of_operand(op[2]))
+        elif t == 'query':
+            info['ret'] = run_query(obj, op[1])
         else:
             raise RuntimeError('unknown op %r' % (op,))
         return 'ok', info
@@ -580,6 +597,34 @@ def apply_op(obj, op):
             raise
         info['msg'] = str(e)[:200]
         return type(e).__name__, info
+
+
+def run_query(obj, q):
+    """A public read-only hook is called on the real object; canonical form of what it returns (or the class it raises)."""
+    try:
+        if q == 'completions':
+            return {'names': [str(x) for x in obj._ipython_key_completions_()]}
+        if q == 'dir':
+            cls = set(dir(type(obj)))
+            d = obj.__dict__
+            cands = list(d.get('index', [])) + [x for x in d.get('_attributes', []) if isinstance(x, str)] + list(d.get('aliases', {}) or {})
+            return {'names': sorted(x for x in dir(obj) if x not in cls), 'masked': sorted(set(x for x in cands if x in cls))}
+        if q == 'nbytes':
+            return {'nat': int(obj.nbytes)}
+        if isinstance(q, list) and q[0] == 'contains':
+            return {'bool': bool(q[1] in obj)}
+        raise RuntimeError('unknown op: query %r' % (q,))
+    except BaseException as e:             # noqa: BLE001 - the class is the observation
+        if isinstance(e, (KeyboardInterrupt, SystemExit, MemoryError)) or str(e).startswith('unknown op'):
+            raise
+        return type(e).__name__
+
+
+def same_query_result(model_ret, real_ret):
+    """Model's answer of a hook vs the implementation's (dir(): only the instance-dependent part, as a sorted list)."""
+    if isinstance(model_ret, dict) and isinstance(real_ret, dict) and 'masked' in real_ret:
+        return sorted(x for x in model_ret.get('names', []) if x not in real_ret['masked']) == real_ret['names']
+    return model_ret == real_ret
 
 
 def make_class(kind, names, aliases=None, preferred=None, evaluate=None):
@@ -683,6 +728,8 @@ def impl_run(case):
             step['values_set_ok'] = values_set_readback(obj, declared, py_of_operand(op[2]))
         if 'msg' in info:
             step['msg'] = info['msg']
+        if 'ret' in info:
+            step['ret'] = info['ret']
         res['steps'].append(step)
     return res
 
@@ -709,6 +756,8 @@ def compare(model_res, impl_res):
     for i, (m, r) in enumerate(zip(model_res['steps'], impl_res['steps'])):
         if m['out'] != r['out']:
             return 'op %d outcome: model=%s impl=%s' % (i, m['out'], r['out'])
+        if ('ret' in m or 'ret' in r) and not same_query_result(m.get('ret'), r.get('ret')):
+            return 'op %d returned: model=%s impl=%s' % (i, json.dumps(m.get('ret'))[:200], json.dumps(r.get('ret'))[:200])
         d = diff_state(m['st'], r['st'])
         if d:
             return 'after op %d: %s' % (i, d)
